@@ -33,6 +33,9 @@ type SeqOp struct {
 type SeqCase struct {
 	CacheMasks []int   `json:"cache_masks"` // predicate of every cache handle
 	Ops        []SeqOp `json:"ops"`
+	// Slots > seqSlots: a crowded relay - the history starts with that many
+	// subscriptions, most of which are closed again
+	Slots int `json:"slots,omitempty"`
 }
 
 var seqKinds = []string{
@@ -70,6 +73,19 @@ func genSeqOp() *rapid.Generator[SeqOp] {
 func drawSeq(t *rapid.T) SeqCase {
 	var c SeqCase
 	c.CacheMasks = rapid.SliceOfN(genMask(3), seqCacheSlots, seqCacheSlots).Draw(t, "cache_masks")
+	if rapid.IntRange(0, 5).Draw(t, "crowd") == 0 {
+		c.Slots = rapid.IntRange(9, 40).Draw(t, "slots")
+		for i := 0; i < c.Slots; i++ {
+			c.Ops = append(c.Ops, SeqOp{K: "sub", C: 0, Mask: genMask(1).Draw(t, "cmask")})
+		}
+		if rapid.Bool().Draw(t, "putfirst") {
+			c.Ops = append(c.Ops, SeqOp{K: "put", Tag: rapid.IntRange(0, nTags-1).Draw(t, "ctag")})
+		}
+		nclose := rapid.IntRange(c.Slots/2, c.Slots-1).Draw(t, "nclose")
+		for i := 0; i < nclose; i++ {
+			c.Ops = append(c.Ops, SeqOp{K: "close", C: rapid.IntRange(0, c.Slots-1).Draw(t, "cc")})
+		}
+	}
 	// four segments: rapid's slices average ~5 elements, a history should
 	// average ~20 and still shrink by deleting single operations
 	for seg := 0; seg < 4; seg++ {
@@ -189,8 +205,13 @@ func runSeqBody(c SeqCase, o *h.Outcome) *h.Failure {
 		cachePreds[i] = maskPred(m.masks[i])
 	}
 
-	var cons []*sink           // consumer objects
-	slotObj := [seqSlots]int{} // slot -> subscribed object, -1 if none
+	var cons []*sink // consumer objects
+	nslots := seqSlots
+	if c.Slots > nslots {
+		nslots = c.Slots
+		o.Class("crowded-relay")
+	}
+	slotObj := make([]int, nslots) // slot -> subscribed object, -1 if none
 	for i := range slotObj {
 		slotObj[i] = -1
 	}
